@@ -237,9 +237,9 @@ def check_import_table(out, df, sig, exp, tol_pos, tol_rot, check_ids=True):
         two = sub is not None and len(set(sub)) == 2
         uniq = len(set(exp["subnum"])) == len(exp["subnum"])
         if two:
-            inc = bool(np.all(np.diff(ids) > 0)) if n > 1 else True
+            # re-numbered particles need unique numbers of the right parity; which numbers they get is not part of the statement
             par = all((int(i_) % 2 == 1) == (int(s_) == 1) for i_, s_ in zip(ids, sub))
-            out.check(inc, f"{sig}:halfset_renumbering_not_increasing", lambda: ids[:8].tolist())
+            out.check(len(set(ids.tolist())) == len(ids), f"{sig}:halfset_renumbering_not_unique", lambda: ids[:8].tolist())
             out.check(par, f"{sig}:halfset_parity_not_1_odd_2_even", lambda: f"ids {ids[:8].tolist()} subsets {list(sub)[:8]}")
         elif uniq:
             out.check(ids.tolist() == list(exp["subnum"]), f"{sig}:subtomo_id_not_number_in_name", lambda: f"{ids[:5].tolist()} vs {list(exp['subnum'])[:5]}")
